@@ -582,7 +582,13 @@ def gen_op(rng, ex: Exec, kinds=None, p_bad=0.12):
     if k == "rename_rxn":
         return {"op": k, "r": some_r(), "new": rng.choice(RIDS)}
     if k == "rename_met":
-        return {"op": k, "m": rng.choice(mids) if mids else "A", "new": rng.choice(MIDS)}
+        # not onto an identifier that a reaction outside the model still holds as another object: re-adding that reaction then meets two of its
+        # own metabolites under one id (known_findings.json: readd-after-rename-onto-detached-metabolite-id)
+        held = {x.id for R in ex.removed.values() if R._model is None for x in R._metabolites}
+        free = [x for x in MIDS if x not in held]
+        if not free:
+            return {"op": "slim_optimize"}
+        return {"op": k, "m": rng.choice(mids) if mids else "A", "new": rng.choice(free)}
     if k == "rename_genes":
         if not gids:
             return {"op": k, "map": [[rng.choice(GIDS), rng.choice(GIDS)]]}
